@@ -63,6 +63,10 @@ fn pipeline_job(pipe: Pipe, form: Form, len: usize) -> Job {
         ch.label(|| format!("in{i} <- {ev:?}"));
         hist.push(format!("in{i}<-{ev:?}"));
         r.emit(i, &ev);
+        // sample once while whatever the event scheduled is still waiting for the
+        // executor, and again after it has run
+        r.world.settle();
+        sample(&r, obs, &hist, &mut closed_at);
         r.drain();
       } else if timed && k == n_ev {
         ch.label(|| "tick".into());
